@@ -442,8 +442,16 @@ def run(chk):
                                       e["case_name"], e["code_text"], e["text_ok"])
 
     # ---- thorough: no parse cache, OpenMP variants ---------------------------------------------------------
+    t_omp = time.time()
+    sample = tuple(n for n in OMP_SAMPLE if n in X.builtin_map())
+    omp_issue = omp_check(chk, entries, names=sample, settings=((False, False),))
+    if omp_issue is None:
+        omp_issue = omp_check(chk, entries, names=sample, schedules=["none", "static", "dynamic,2"], settings=((True, True),))
+    chk.cov["openmp_quick_s"] = round(time.time() - t_omp, 1)
+    if violation is None and omp_issue:
+        violation = omp_issue
     if chk.tier == "thorough":
-        omp_issue = omp_check(chk, entries)
+        omp_issue = omp_check(chk, entries, schedules=["none", "static", "guided,8"])
         oracle_check(chk, entries)
         if violation is None and omp_issue:
             violation = omp_issue
@@ -482,41 +490,116 @@ def reprod_ok(e, r, si):
     return nf(r["body_text"][0]) == want_body and zero and in_loop
 
 
-def omp_check(chk, entries, names=None):
-    """OpenMP-parallelised variants: same statement, same bounds, reduction clause for reductions."""
+OMP_SCHEDULES = ["none", "static", "dynamic", "guided", "auto", "runtime", "static,4", "dynamic,2", "guided,8"]
+OMP_MODES = ("paralleldo", "do", "do-reprod")
+# quick tier: every reduction built-in + a sample of element-wise ones (real/integer, scalar/field operands,
+# intrinsic, conversion, random); thorough tier: all built-ins
+OMP_SAMPLE = ("x_innerproduct_y", "x_innerproduct_x", "sum_x", "x_plus_y", "inc_a_times_x", "setval_c",
+              "inc_x_powint_n", "sign_x", "real_to_int_x", "int_x_plus_y", "setval_random")
+
+
+def omp_sharing_issue(e, r):
+    """The precondition of C20_omp_reduction_clause / C20_elementwise_order_irrelevant, evaluated on the
+    generated text: the DoF loop is work-shared inside a parallel region; only the loop index (and the
+    thread index of the reproducible scheme) is private; a loop that accumulates into a scalar carries a
+    matching `reduction(+:var)` clause (each thread then adds into a zero-initialised private copy and the
+    copies are combined with +), or it uses the thread-local array scheme `l_var(1,th_idx)` with zeroing and
+    the final sequential combining loop.  Returns None or the reason."""
+    nf = X._norm_f
+    enc = [nf(l) for l in r["omp_enclosing"]]
+    if not any(l.startswith("!$ompparallel") for l in enc):
+        return "DoF loop is not inside an OpenMP parallel region"
+    if not any(l.startswith("!$ompdo") or l.startswith("!$ompparalleldo") for l in enc):
+        return "DoF loop is not work-shared (no omp do)"
+    if len(r["body_text"]) != 1:
+        return "loop body is not a single statement"
+    priv = set()
+    for l in enc:
+        for m in re.finditer(r"(?:first|last)?private\(([^)]*)\)", l):
+            priv |= set(m.group(1).split(","))
+    allowed = {"df", "th_idx"}
+    if not priv <= allowed:
+        return f"variables {sorted(priv - allowed)} are private to the threads (results would be lost)"
+    body = nf(r["body_text"][0])
+    m = re.match(r"(\w+)=", body)
+    scalars = [a for a, (k, _, _) in zip(e["args"], e["meta"]) if k == "scalar"]
+    if m and m.group(1) in scalars:
+        var = m.group(1)
+        if not any(f"reduction(+:{var})" in l for l in enc):
+            return (f"work-shared loop accumulates into the shared scalar '{var}' without a reduction(+:{var}) "
+                    f"clause: concurrent read-modify-write, the result is not the documented sum")
+        return None
+    m = re.match(r"l_(\w+)\(1,th_idx\)=", body)
+    if m:
+        if "th_idx" not in priv:
+            return "thread index th_idx is shared"
+        lines = [nf(l) for l in r["code_lines"]]
+        if "th_idx=omp_get_thread_num()+1" not in lines:
+            return "th_idx is not set from omp_get_thread_num()"
+        return None        # zeroing / same summand / combining loop: reprod_ok (statement check)
+    if any("reduction(" in l for l in enc) and not e["is_reduction"]:
+        return "reduction clause on an element-wise built-in"
+    if not re.match(r"(\w+_data\(df\)=|callrandom_number\(\w+_data\(df\)\))", body):
+        return "element-wise statement does not write element df only"
+    return None
+
+
+def omp_variant_issue(e, r, si, mode):
+    """(i) statement, zero-initialisation and bounds unchanged by the OpenMP transformation; (ii) data sharing."""
+    base = e["codes"][si]
+    why = []
+    body_ok = r["body"] == base["body"]
+    if mode == "do-reprod" and e["is_reduction"]:
+        body_ok = reprod_ok(e, r, si)
+    if not body_ok:
+        why.append("statement changed" if not (mode == "do-reprod" and e["is_reduction"]) else
+                   "reproducible reduction is not: zeroed l_var, same summand into l_var(1,th_idx), final s = s + l_var(1,th_idx) loop")
+    if r["ub"] != e["ubs"][si] or r["lo"] != ["const", 1]:
+        why.append("loop bounds changed")
+    if r["init"] != base["init"]:
+        why.append("zero-initialisation changed")
+    sh = omp_sharing_issue(e, r)
+    if sh:
+        why.append(sh)
+    return why
+
+
+def omp_check(chk, entries, names=None, schedules=None, modes=OMP_MODES, settings=((False, False), (True, True))):
+    """OpenMP-parallelised variants for every omp_schedule x {parallel do, do, do+reprod}."""
     issue = None
     summary = {}
-    for mode in ("paralleldo", "do", "do-reprod"):
-        for dm, ann in ((False, False), (True, True)):
-            try:
-                recs = X.build(dm, ann, omp=mode, names=names)
-            except Exception as err:   # noqa: BLE001  (a transformation refusing is reported, not hidden)
-                chk.correspondence_broken(f"OpenMP variant {mode} dm={dm} could not be generated", str(err)[:300], "", "")
-                continue
-            si = X.SETTINGS.index((dm, ann))
-            n_ok = 0
-            for e, r in zip(entries, recs):
-                base = e["codes"][si]
-                body_ok = r["body"] == base["body"]
-                if mode == "do-reprod" and e["is_reduction"]:
-                    body_ok = reprod_ok(e, r, si)
-                ub_ok = r["ub"] == e["ubs"][si]
-                omp = " ".join(r["omp_lines"]).lower()
-                red_ok = True
-                if e["is_reduction"] and mode != "do-reprod":
-                    red_ok = bool(re.search(r"reduction\(\s*\+\s*:\s*" + re.escape(e["args"][e["doc"][1]]) + r"\s*\)", omp))
-                par_ok = "parallel" in omp and " do" in omp
-                if body_ok and ub_ok and red_ok and par_ok and r["init"] == base["init"]:
-                    n_ok += 1
-                elif issue is None:
-                    issue = {"builtin": e["case_name"], "kind": "failing-input", "dm": dm, "annexed": ann, "openmp": mode,
-                             "observed": {"statement": r["body_fortran"], "upper_bound": r["ub_text"],
-                                          "omp": r["omp_lines"], "init": r.get("init_text"),
-                                          "reduction_lines": [l for l in r["code_lines"] if "l_" in l or "th_idx" in l]},
-                             "expected": {"statement": e["code_text"][si], "upper_bound": e["ub_text"][si],
-                                          "reduction_clause": e["is_reduction"]}}
-            summary[f"{mode}/dm={dm}"] = n_ok
-    chk.cov["openmp_variants_unchanged"] = summary
+    by_name = {e["name"]: e for e in entries}
+    for sched in (schedules or OMP_SCHEDULES):
+        for mode in modes:
+            for dm, ann in settings:
+                try:
+                    recs = X.build(dm, ann, omp=(mode, sched), names=names)
+                except Exception as err:   # noqa: BLE001  (a transformation refusing is reported, not hidden)
+                    chk.correspondence_broken(f"OpenMP variant {mode}/{sched} dm={dm} could not be generated",
+                                              str(err)[:300], "", "")
+                    continue
+                si = X.SETTINGS.index((dm, ann))
+                n_ok = 0
+                for r in recs:
+                    e = by_name[r["name"]]
+                    why = omp_variant_issue(e, r, si, mode)
+                    if not why:
+                        n_ok += 1
+                    elif issue is None:
+                        issue = {"builtin": e["case_name"], "kind": "failing-input", "dm": dm, "annexed": ann,
+                                 "openmp": mode, "omp_schedule": sched, "reprod": mode == "do-reprod",
+                                 "transformations": ("DynamoOMPParallelLoopTrans" if mode == "paralleldo" else
+                                                     "Dynamo0p3OMPLoopTrans + OMPParallelTrans")
+                                                    + f"(omp_schedule='{sched}')",
+                                 "observed": {"why": why, "directives": r["omp_enclosing"], "statement": r["body_text"],
+                                              "upper_bound": r["ub_text"], "init": r.get("init_text"),
+                                              "reduction_lines": [l for l in r["code_lines"] if "l_" in l or "th_idx" in l]},
+                                 "expected": {"statement": e["code_text"][si], "upper_bound": e["ub_text"][si],
+                                              "data_sharing": "reduction(+:var) clause on the work-shared loop, or the "
+                                                              "thread-local array scheme" if e["is_reduction"] else
+                                                              "only df private"}}
+                summary[f"{mode}/{sched}/dm={dm}"] = f"{n_ok}/{len(recs)}"
+    chk.cov.setdefault("openmp_variants_ok", {}).update(summary)
     return issue
 
 
@@ -597,7 +680,8 @@ def replay(payload, quiet=False):
 
             def correspondence_broken(self, *a):
                 pass
-        issue = omp_check(_C(), entries, names=names)
+        issue = omp_check(_C(), entries, names=names, schedules=[payload.get("omp_schedule", "static")],
+                          modes=(payload["openmp"],), settings=((bool(payload["dm"]), bool(payload["annexed"])),))
         if not quiet:
             print("openmp variants:", issue or "unchanged")
         return 1 if issue else 0
